@@ -18,7 +18,7 @@ import (
 
 // SubEvent is one scripted upstream action.
 type SubEvent struct {
-	Kind    string `json:"kind"` // data | errors-payload | errors+data | error-frame | complete | close | sleep | garbage
+	Kind    string `json:"kind"` // data | errors-payload | errors+data | error-frame | error-frame-object | complete | close | sleep | garbage
 	SleepUs int    `json:"sleep_us,omitempty"`
 }
 
@@ -236,6 +236,10 @@ func (u *WSUpstream) play(rec *UpstreamConn, id string, req *engine.Request, sen
 			atomic.AddInt32(&rec.Emitted, 1)
 		case "error-frame":
 			send(map[string]any{"id": id, "type": "error", "payload": []any{map[string]any{"message": "upstream error frame " + rec.Marker}}})
+			return
+		case "error-frame-object":
+			// the payload of an error message as one error object (the other form the protocol knows)
+			send(map[string]any{"id": id, "type": "error", "payload": map[string]any{"message": "upstream error frame " + rec.Marker, "extensions": map[string]any{"code": "UPSTREAM"}}})
 			return
 		case "complete":
 			send(map[string]any{"id": id, "type": "complete"})
